@@ -5,13 +5,14 @@ CONSTANTS Mode, MinN, MaxN, FullTo, Batch, Stride, Offset
 
 NItems == (MaxN - MinN + 1 + Batch - 1) \div Batch
 Picked == SelectSeq([j \in 1..NItems |-> j], LAMBDA j : j % Stride = Offset % Stride)
-Descs == <<"", "plain", "two words here", "with > inside", " leading and trailing ", "tab\there">>
+Descs == <<"", "plain", "two words here", "with > inside", " leading and trailing ", "tab\there",
+           "identity 100%", "50% GC %s %d %v", "back\\slash and \"quotes\"", "semi;colon, comma | pipe">>
 BatchJson(b) ==
   LET lo == MinN + (b - 1) * Batch
       hiN == IF lo + Batch - 1 > MaxN THEN MaxN ELSE lo + Batch - 1
   IN IF Mode = "origin"
      THEN [id |-> "or" \o ToString(MinN) \o "." \o ToString(b), fam |-> "origin", ns |-> [j \in 1..(hiN - lo + 1) |-> lo + j - 1], fullto |-> FullTo]
-     ELSE [id |-> "fa" \o ToString(b), fam |-> "fasta", ns |-> [j \in 1..(hiN - lo + 1) |-> lo + j - 1], descs |-> Descs]
+     ELSE [id |-> "fa" \o ToString(MinN) \o "." \o ToString(b), fam |-> "fasta", ns |-> [j \in 1..(hiN - lo + 1) |-> lo + j - 1], descs |-> Descs]
 
 VARIABLES lo, hi, done
 vars == <<lo, hi, done>>
